@@ -4,6 +4,8 @@
 // freed object.  Coq witness: VmAllocPointsWitness.alloc_gap_register_upvalue.
 // Build: cargo build --offline ; run: valgrind -q target/debug/c02gap   (9 invalid reads/writes; segfault without
 // valgrind) ; control: target/debug/c02gap copylast (clean).  valgrind.txt = output at /repo d80a79a.
+// `target/debug/c02gap counts`: allocation events of InitTable (2), NthRow (6), first AppendTable (0 growth) - they
+// agree with the kinds listed by VmAllocPoints.alloc_points (AObject / ASecond per init, AGrow conditional).
 use cao_lang::prelude::*;
 use cao_lang::verif_hooks as vh;
 
@@ -24,6 +26,15 @@ fn run(code: Vec<u8>, name: &str) {
 
 fn main() {
     let which = std::env::args().nth(1).unwrap_or_default();
+    if which == "counts" {
+        // InitTable; Exit  -> 2 allocation points
+        run(vec![31, 10], "InitTable");
+        // InitTable; ScalarInt 0; NthRow; Exit -> 2 + 6
+        run(vec![31, 5, 0, 0, 0, 0, 0, 0, 0, 0, 39, 10], "InitTable; ScalarInt 0; NthRow");
+        // ScalarInt 1; InitTable; AppendTable; Exit -> 2 + (growth only when needed)
+        run(vec![5, 1, 0, 0, 0, 0, 0, 0, 0, 31, 40, 10], "ScalarInt 1; InitTable; AppendTable");
+        return;
+    }
     if which == "copylast" {
         run(vec![7, 42, 0, 0, 0, 0, 0, 0, 0, 0, 9, 45, 0, 1, 16, 16, 10], "CopyLast");
         return;
